@@ -5,8 +5,11 @@ package props
 import (
 	"bytes"
 	"crypto"
+	_ "crypto/sha1"
+	_ "crypto/sha512"
 	"crypto/x509"
 	"crypto/x509/pkix"
+	"encoding/binary"
 	"errors"
 	"fmt"
 	"io"
@@ -41,9 +44,10 @@ func init() {
 			for i := range c03Inits() {
 				u = append(u, "init#"+strconv.Itoa(i))
 			}
-			return append(u, "entry-length-residues#0", "entry-length-residues#1", "certificate-kinds#0", "certificate-kinds#1", "huge", "entry-bytes")
+			return append(u, "other-hash-arguments", "entry-length-residues#0", "entry-length-residues#1", "certificate-kinds#0", "certificate-kinds#1", "huge", "entry-bytes")
 		},
-		Run: c03Run,
+		Run:        c03Run,
+		SearchUnit: func(unit string) bool { return strings.HasPrefix(unit, "init#") },
 		Bound: func(tier string) map[string]any {
 			return map[string]any{"depth": c03Depth(tier), "keys": []int{2048, 3072, 4096}, "initial_states": len(c03Inits())}
 		},
@@ -71,6 +75,16 @@ func c03Inits() []c03Init {
 	out = append(out, c03Init{"110KB-image", pegen.Build(peBigLayout())})
 	out = append(out, c03Init{"chunk-boundary-image", pegen.Build(peChunkBoundaryLayout())})
 	out = append(out, c03Init{"image-with-64KiB-DOS-stub", pegen.Build(peLongStubLayout())})
+	// unsigned images whose certificate-table directory entry holds a left-over address and size 0
+	// (a stripped image whose address was not cleared): no table; the first signature starts one at
+	// the end of the file like on any unsigned image
+	for _, addr := range []uint32{16, 0x1000} {
+		b := pegen.Build(peBaseLayouts()[0])
+		if im, err := refpe.Parse(b); err == nil {
+			binary.LittleEndian.PutUint32(b[im.CertDirOff:], addr)
+			out = append(out, c03Init{fmt.Sprintf("layout0 with a left-over table address %#x and size 0", addr), b})
+		}
+	}
 	// layouts carrying a third-party certificate table (a real sbsign signature blob as payload)
 	if blob, err := os.ReadFile("/repo/authenticode/testdata/test.pecoff.pk7"); err == nil {
 		for _, i := range []int{0, 1, 4} {
@@ -106,6 +120,7 @@ type c03World struct {
 	inplace int
 	signers map[int]int // key id -> number of signatures
 	orig    []byte      // unsigned original (stripped initial image)
+	raw     []byte      // the initial image as it is
 	nThird  int         // third-party entries present initially
 	digest0 []byte      // reference digest of the initial image
 }
@@ -122,7 +137,11 @@ func c03Check(w *c03World, out []byte) (string, map[string]any) {
 	}
 	if total == 0 {
 		// never signed: the file must be the original
-		if !bytes.Equal(out, w.orig) && !bytes.Equal(out, append(append([]byte{}, w.orig...), make([]byte, (8-len(w.orig)%8)%8)...)) {
+		ref := w.orig
+		if w.nThird == 0 && w.raw != nil {
+			ref = w.raw // (differs from orig only by a left-over table address that has no size)
+		}
+		if !bytes.Equal(out, ref) && !bytes.Equal(out, append(append([]byte{}, ref...), make([]byte, (8-len(ref)%8)%8)...)) {
 			return "re-serialising an unsigned image changes it", nil
 		}
 		return "", nil
@@ -399,6 +418,10 @@ func c03CertSweepOn(c *hx.Ctx, base []byte, shard int, items []c03Signer, label 
 func c03Run(c *hx.Ctx, tier, unit string) {
 	c.NoOnly = true
 	vtime.Set(time.Date(2024, 5, 6, 7, 8, 9, 0, time.UTC))
+	if unit == "other-hash-arguments" {
+		c03OtherHash(c)
+		return
+	}
 	if unit == "entry-bytes" {
 		c03EntryBytes(c)
 		return
@@ -444,7 +467,7 @@ func c03Run(c *hx.Ctx, tier, unit string) {
 		io.Copy(io.Discard, p.Open())
 	}
 	buildObs := func(path []int, observed bool) (*c03World, error, *hx.Panic) {
-		w := &c03World{signers: map[int]int{}, orig: orig, nThird: nThird, digest0: digest0}
+		w := &c03World{signers: map[int]int{}, orig: orig, raw: in.img, nThird: nThird, digest0: digest0}
 		var err error
 		pn := hx.Try(func() {
 			w.p, err = authenticode.Parse(bytes.NewReader(in.img))
@@ -679,4 +702,70 @@ func opKind(op c03Op) string {
 		return "AppendSignature"
 	}
 	return "Sign"
+}
+
+// c03OtherHash: the lower-level entry points take a hash argument that Sign never varies. Whatever
+// they do with SHA-1 / SHA-384 / SHA-512 (an error, or a blob labelled accordingly), signing and
+// verifying images afterwards is what it was before: byte-identical output, same verdicts (and the
+// library's exported tables are unchanged: checked for every unit by the harness).
+func c03OtherHash(c *hx.Ctx) {
+	c.NoOnly = true
+	vtime.Set(time.Date(2024, 5, 6, 7, 8, 9, 0, time.UTC))
+	base := pegen.Build(peBaseLayouts()[0])
+	signOnce := func() ([]byte, bool, error) {
+		p, err := authenticode.Parse(bytes.NewReader(base))
+		if err != nil {
+			return nil, false, err
+		}
+		if _, err := p.Sign(memoSignerFor(1), keys.C(1)); err != nil {
+			return nil, false, err
+		}
+		out := p.Bytes()
+		rp, err := authenticode.Parse(bytes.NewReader(out))
+		if err != nil {
+			return out, false, err
+		}
+		ok, _ := rp.Verify(keys.C(1))
+		return out, ok, nil
+	}
+	want, wok, werr := signOnce()
+	if werr != nil || !wok {
+		c.Violation("C03 signing a well-formed image fails", map[string]any{"error": fmt.Sprint(werr), "verifies": wok})
+		return
+	}
+	for _, h := range []crypto.Hash{crypto.SHA1, crypto.SHA384, crypto.SHA512, crypto.SHA256, crypto.Hash(0), crypto.Hash(99)} {
+		for _, entry := range []string{"CreateSpcIndirectDataContent", "SignAuthenticode"} {
+			c.Next()
+			pn := hx.Try(func() {
+				if entry == "SignAuthenticode" {
+					if h.Available() {
+						authenticode.SignAuthenticode(memoSignerFor(1), keys.C(1), bytes.NewReader([]byte("stream")), h)
+					}
+				} else {
+					authenticode.CreateSpcIndirectDataContent(fill(32, 7), h)
+				}
+			})
+			_ = pn // whether these calls succeed, fail or end abnormally is not C03's subject
+			got, ok, err := signOnce()
+			if err != nil || !ok || !bytes.Equal(got, want) {
+				c.Outcome("state-violation")
+				c.Violation("C03 signing an image gives another result after "+entry+" was called with another hash function", map[string]any{"hash": fmt.Sprint(h), "error": fmt.Sprint(err), "verifies": ok, "same_bytes": bytes.Equal(got, want)})
+				return
+			}
+			// images signed earlier still verify
+			rp, err := authenticode.Parse(bytes.NewReader(want))
+			if err != nil {
+				c.Violation("C03 an image signed earlier no longer parses after "+entry+" was called with another hash function", map[string]any{"hash": fmt.Sprint(h)})
+				return
+			}
+			if ok, verr := rp.Verify(keys.C(1)); !ok {
+				c.Outcome("state-violation")
+				c.Violation("C03 an image signed earlier no longer verifies after "+entry+" was called with another hash function", map[string]any{"hash": fmt.Sprint(h), "error": fmt.Sprint(verr)})
+				return
+			}
+			c.Outcome("state-ok")
+			c.Count("transitions", 1)
+			c.Nontrivial([]byte(entry), []byte(fmt.Sprint(h)))
+		}
+	}
 }
